@@ -11,7 +11,24 @@ AsCt(r) == [opp |-> Fn(r.opp), m |-> Fn(r.ctv), vc |-> r.vc, par |-> r.par]
 SamePartition(r) == \A a \in 1..Len(r.attv) : \A b \in 1..Len(r.attv) :
                        (r.attv[a] >= 0 /\ r.attv[b] >= 0 /\ r.ctv[a] >= 0 /\ r.ctv[b] >= 0) => ((r.attv[a] = r.attv[b]) <=> (r.ctv[a] = r.ctv[b]))
 AttOK(r) == r.att_ok /\ r.att_inv = 0 /\ r.att_maxv < r.att_nv /\ r.att_part_ok /\ (Len(r.attv) <= 60 => SamePartition(r))
-CheckA(r) == r.e = "CT" => (r.ok /\ Len(r.opp) = Len(r.f) /\ Len(r.ctv) = Len(r.f) /\ CornerTableOK(r.f, AsCt(r)) /\ AttOK(r))
+\* the table under an attribute with seams (every corner carries a value index s_val; s_av = its attribute vertex): for corners of non-degenerate faces
+\*   corners of one attribute vertex belong to one table vertex and carry one value; that value is the vertex' entry (VertexParent);
+\*   the left-most corner of an attribute vertex is one of its own corners;
+\*   two corners of a table vertex that are neighbours across an edge on which both faces agree (at both ends) share their attribute vertex
+NonDeg(r, c) == LET f == (c - 1) \div 3 IN r.f[3 * f + 1] # r.f[3 * f + 2] /\ r.f[3 * f + 1] # r.f[3 * f + 3] /\ r.f[3 * f + 2] # r.f[3 * f + 3]
+NxS(c) == IF (c - 1) % 3 = 2 THEN c - 2 ELSE c + 1        \* 1-based corner positions in the record's sequences
+PvS(c) == IF (c - 1) % 3 = 0 THEN c + 2 ELSE c - 1
+SeamOK(r) == r.s_ok /\ Len(r.s_av) = Len(r.f) /\ Len(r.s_val) = Len(r.f) /\
+   LET C == {c \in 1..Len(r.f) : NonDeg(r, c)} IN
+   /\ \A c \in C : r.s_av[c] >= 0 /\ r.s_av[c] < Len(r.s_parent)
+   /\ \A c \in C : r.s_parent[r.s_av[c] + 1] = r.s_val[c]
+   /\ \A c1 \in C : \A c2 \in C : r.s_av[c1] = r.s_av[c2] => (r.ctv[c1] = r.ctv[c2] /\ r.s_val[c1] = r.s_val[c2])
+   /\ \A v \in 1..Len(r.s_left) : r.s_left[v] >= 0 => (r.s_left[v] + 1 \in C /\ r.s_av[r.s_left[v] + 1] = v - 1)
+   /\ \A c \in C : LET o == r.opp[PvS(c)] IN      \* the edge (corner c -> next corner) is opposite to the previous corner; across it lies corner Next(o) of the same vertex
+        (o >= 0 /\ (o + 1) \in C) =>
+           LET c2 == NxS(o + 1) IN
+           (r.s_val[c] = r.s_val[c2] /\ r.s_val[NxS(c)] = r.s_val[PvS(c2)]) => r.s_av[c] = r.s_av[c2]
+CheckA(r) == r.e = "CT" => (r.ok /\ Len(r.opp) = Len(r.f) /\ Len(r.ctv) = Len(r.f) /\ CornerTableOK(r.f, AsCt(r)) /\ AttOK(r) /\ (Len(r.f) <= 90 => SeamOK(r)))
 CheckB(r) == (r.e = "CT" /\ r.ok /\ Len(r.f) <= 36) =>
                 LET b == Create(r.f) IN
                 Drift(Fn(r.opp) = b.opp /\ Fn(r.ctv) = b.m /\ r.vc = b.vc /\ r.par = b.par /\ r.iso = b.iso /\ r.deg = b.deg, "CornerTable::Create")
